@@ -39,6 +39,9 @@ func runC02(c *Ctx) {
 	c02R6(c, p)
 	c02R7(c, p, "C02.R7")
 	c02R8(c, p)
+	// a `position … moves` list reaches the board only through IsPseudoLegal: a legal move the gate rejects
+	// (or an illegal one it lets through) makes the position command produce a different successor
+	c.As("C05.R", "C02.R9.gate:R", func() { c05R1R4(c, p); c05R2(c, p) })
 }
 
 // atom is a normalised atomic condition.
@@ -949,6 +952,8 @@ func c02R7(c *Ctx, p *Prog, rule string) {
 		c.Undec(rule, "CanEnPassant#params", fn.Pos(), "expected (b, to)")
 		return
 	}
+	// the candidate capturers stand on the files next to the pushed pawn: the one-file shifts must not wrap
+	c.Floor(rule+".neighbours", pa5(c, p, rule+".neighbours", inFuncs("board.(*Board).CanEnPassant")), 1, "one-file shifts in CanEnPassant")
 	to := fn.Params[1]
 	atts := callsIn(fn, "board.(*Board).IsAttacked")
 	if len(atts) != 1 {
